@@ -1484,6 +1484,8 @@ fn main() {
     //   xlsx 303c869: formatCode="&apos;" was scanned with its XML escape (a, p -> DateTime);  `0.0" d"` likewise
     //   xls  0b12e07: FORMULA record with a numeric cached result ignored the XF's date format
     for w in ["file xlsx 16183923183082473886 1 165=N27 0,165", "file xls 78432869474177924 1 - 0,19",
+              // seeded change C10-m1 (read_v stops at `t`): this layout writes `t="n"` before `s` on a date-styled cell
+              "file xlsx 6124263884038469644 1 - 0,14",
               "file xlsx 5 0 170=N30,N2e,N30,L2064 0,170", "file xlsx 5 1 171=L6d26,N30|172=L3c793e,N30 0,171,172"] {
         let c = StyleCase::from_wire(&w.split(' ').collect::<Vec<_>>()).expect("corpus file case");
         check_file(&c, &mut drv, &mut out, false);
